@@ -883,3 +883,150 @@ def c13(chk, tier):
                        "DeriveKeyPair, receiver and sender setup, seal, open in both forms, export, PskBundle::new) x length "
                        "classes incl. 0, tag length +-1, block boundaries, 65535, 65536, 70000 x 4 KEMs x KDF/AEAD (rotating "
                        "in quick); distinct = distinct (call, algorithm, argument lengths, context state)")
+
+
+# ------------------------------------------------------------------------------------------- C16
+SUITE_SIZES = {1: (16, 12), 2: (32, 12), 3: (32, 12), 65535: (0, 128)}
+NH = {1: 32, 2: 48, 3: 64}
+NSK = {32: 32, 16: 32, 17: 48, 18: 66}
+
+
+def validate_trace(chk, module, cfgname, env_name, events, name):
+    """impl -> spec: write the abstracted event log, let TLC decide whether the trace specification accepts it.
+    Returns None if accepted, else the record TLC printed for the first event no action explains."""
+    import tempfile
+    from . import tlcrun
+    from .common import SPEC
+    path = os.path.join(engine.outdir(chk.prop), name + ".ndjson")
+    with open(path, "w") as f:
+        for e in events:
+            f.write(json.dumps(e) + "\n")
+    res = tlcrun.run(module, os.path.join(SPEC, cfgname), workers=1, timeout=1800, env={env_name: path},
+                     java_opts=["-Dtlc2.tool.queue.IStateQueue=StateDeque"])
+    chk.add_tlc(res.stats, name)
+    rejected = [v for v in res.printed if isinstance(v, dict) and "rejected_at" in v]
+    if rejected:
+        return rejected[0]
+    if res.violated:
+        if "Accepted" in (res.violated or "") or "ostcondition" in res.raw_tail:
+            return {"rejected_at": None, "event": None, "tlc": res.raw_tail[-800:]}
+        raise ToolError("trace validation run failed: %s\n%s" % (res.violated, res.raw_tail))
+    return None
+
+
+@prop("C16")
+def c16(chk, tier):
+    thorough = tier == "thorough"
+    chk.assumptions += [
+        "trace validation: the executor's event log (ledger deltas from the cfg(hpke_verif) drop ledger, memory scans of "
+        "the dropped object's allocation before and after ptr::drop_in_place) is checked by TLC against "
+        "spec/HpkeLifecycle.tla; only lower bounds on clean drops and 'no dirty drop' are demanded",
+        "memory scans look for every 8-byte window of the base nonce and exporter secret (raw contexts: chosen by the "
+        "driver) and of the KEM shared secret (read from SharedSecret.0 before the drop); a scan counts only if the "
+        "secret WAS found before the drop; nothing is claimed about copies left by moves or the cipher state",
+        "the ledger is process-global: the script is sequential, so each delta belongs to one call"]
+    from .execproc import run_script
+    rnd = random.Random(seed())
+    cmds = []
+    meta = []
+
+    def add(cmd, ev, ctx=None):
+        cmds.append(cmd)
+        meta.append((ev, ctx))
+
+    def rb(n):
+        return bytes(rnd.getrandbits(8) for _ in range(n)).hex()
+    suites = [(k, d, a) for k in KEMS for d in (1, 2, 3) for a in (1, 2, 3, 65535)]
+    if not thorough:
+        suites = [s for i, s in enumerate(suites) if (i + seed()) % 4 == 0] + [(32, 1, 65535), (18, 3, 2)]
+    nctx = 0
+    for su in suites:
+        kem, kdf, aead = su
+        nk, nn = SUITE_SIZES[aead]
+        # hook-built contexts of both roles: secrets known by construction
+        for role in ("S", "R"):
+            nctx += 1
+            c = "c%d" % nctx
+            key, bn, ex = rb(nk), rb(nn), rb(NH[kdf])
+            add({"op": "raw_ctx", "suite": list(su), "role": role, "key": key, "base_nonce": bn, "exporter_secret": ex, "ctx": c}, "raw_ctx", c)
+            if aead != 65535 and role == "S":
+                add({"op": "seal", "ctx": c, "pt": rb(20), "aad": rb(3), "form": "alloc"}, "seal", c)
+            if aead != 65535 and role == "R":
+                add({"op": "open", "ctx": c, "ct": rb(40), "aad": "", "form": "alloc"}, "open", c)
+            add({"op": "export", "ctx": c, "exporter_ctx": rb(4), "len": 32}, "export", c)
+            add({"op": "drop", "ctx": c, "scan": [bn, ex]}, "drop", c)
+        # real setups, all four modes, both roles
+        ikm_r, ikm_s = rb(NSK[kem]), rb(NSK[kem])
+        i_r = len(cmds)
+        add({"op": "derive_keypair", "kem": kem, "ikm": ikm_r}, "other")
+        i_s = len(cmds)
+        add({"op": "derive_keypair", "kem": kem, "ikm": ikm_s}, "other")
+        for mode in (0, 1, 2, 3):
+            nctx += 1
+            cs, cr = "s%d" % nctx, "r%d" % nctx
+            extra = {}
+            if mode in (1, 3):
+                extra.update(psk=rb(32), psk_id=rb(8))
+            s_cmd = {"op": "setup_s", "suite": list(su), "mode": mode, "pk_r": {"ref": i_r, "field": "pk"}, "info": rb(5),
+                     "rng": rb(NSK[kem]), "ctx": cs}
+            r_cmd = {"op": "setup_r", "suite": list(su), "mode": mode, "sk_r": {"ref": i_r, "field": "sk"}, "info": s_cmd["info"], "ctx": cr}
+            s_cmd.update(extra)
+            r_cmd.update(extra)
+            if mode in (2, 3):
+                s_cmd.update(sk_s={"ref": i_s, "field": "sk"}, pk_s={"ref": i_s, "field": "pk"})
+                r_cmd.update(pk_s={"ref": i_s, "field": "pk"})
+            i_setup = len(cmds)
+            add(s_cmd, "setup_s", cs)
+            r_cmd["enc"] = {"ref": i_setup, "field": "enc"}
+            add(r_cmd, "setup_r", cr)
+            if aead != 65535:
+                i_seal = len(cmds)
+                add({"op": "seal", "ctx": cs, "pt": rb(33), "aad": rb(2), "form": "detached"}, "seal", cs)
+                add({"op": "open", "ctx": cr, "ct": {"ref": i_seal, "field": "ct"}, "tag": {"ref": i_seal, "field": "tag"},
+                     "aad": cmds[i_seal]["aad"], "form": "detached"}, "open", cr)
+            add({"op": "export", "ctx": cr, "exporter_ctx": "", "len": 16}, "export", cr)
+            add({"op": "drop", "ctx": cs, "scan": []}, "drop", cs)
+            add({"op": "drop", "ctx": cr, "scan": []}, "drop", cr)
+            # the KEM shared secret on its own
+            d_cmd = {"op": "drop_shared_secret", "kem": kem, "sk_r": {"ref": i_r, "field": "sk"}, "enc": {"ref": i_setup, "field": "enc"}}
+            if mode in (2, 3):
+                d_cmd["pk_s"] = {"ref": i_s, "field": "pk"}
+            add(d_cmd, "drop_shared_secret")
+    evs = run_script(cmds)
+    # the refinement mapping: purely syntactic (ledger deltas, scan booleans, result kind)
+    trace = []
+    prev = [[0, 0]] * 4
+    meaningful = 0
+    for (evname, ctx), cmd, ev in zip(meta, cmds, evs):
+        if "tool_error" in ev:
+            raise ToolError("executor: %s on %s" % (ev["tool_error"], json.dumps(cmd)[:200]))
+        led = ev["ledger"]
+        delta = [[led[k][0] - prev[k][0], led[k][1] - prev[k][1]] for k in range(4)]
+        prev = led
+        kind = "ok" if "ok" in ev else "err" if "err" in ev else "panic"
+        scan = []
+        if evname == "drop" and "ok" in ev and "found_before" in ev["ok"]:
+            scan = [{"before": b, "after": a} for b, a in zip(ev["ok"]["found_before"], ev["ok"]["found_after"])]
+        if evname == "drop_shared_secret" and "ok" in ev:
+            scan = [{"before": ev["ok"]["found_before"], "after": ev["ok"]["found_after"]}]
+        meaningful += sum(1 for s in scan if s["before"])
+        trace.append({"ev": evname, "ctx": ctx or "", "result": kind, "delta": delta, "scan": scan, "i": ev["i"]})
+        chk.case((evname, tuple(cmd.get("suite", [cmd.get("kem")])), cmd.get("mode"), cmd.get("role")))
+    if meaningful == 0:
+        raise ToolError("no memory scan found its secret before the drop: the observation is vacuous")
+    rej = validate_trace(chk, "HpkeLifecycle", "HpkeLifecycle.cfg", "LIFE_TRACE", trace, "life")
+    chk.notes["events"] = len(trace)
+    chk.notes["scans_that_found_the_secret_before_the_drop"] = meaningful
+    chk.sample({"trace_excerpt": trace[:6]})
+    if rej is not None:
+        at = rej.get("rejected_at")
+        bad = rej.get("event") or {}
+        idx = bad.get("i") if isinstance(bad, dict) else None
+        what = "life-cycle trace rejected at event %s: %s" % (at, json.dumps(bad)[:400])
+        chk.violation(what, {"kind": "trace", "module": "HpkeLifecycle", "script": cmds[:(idx or 0) + 1],
+                             "rejected": rej, "fingerprint": "life-%s-%s" % (bad.get("ev"), json.dumps(bad.get("delta")))})
+    else:
+        chk.trace_ok()
+    chk.cov["rule"] = ("one executor run over (suites x roles) hook-built contexts with known secrets and (suites x 4 modes x both "
+                       "roles) real setups, each used and dropped, plus the KEM shared secret of every setup; the whole log is one "
+                       "trace validated by TLC; distinct = distinct (event kind, suite, mode, role)")
